@@ -20,7 +20,8 @@ open Twig.Flt
   `filters_items`   {"vals": [val, …]}  →  {"res": [[out, …], …]}     the for-loop view
   `filters_spaces`  {} → {"spaces": [rune, …], "encs": [hex, …]}       the model's unicode.IsSpace set and TrimSpace cut set
   `filters_known`   {"cases": [case, …]} → {"res": [class | null, …]}  recorded-finding class of an input (knownClass)
-  `filters_numpipe` {"cases": [{"m":"1005","k":3,"p":2}, …]} → {"res": [{"round":"100","round_pipe":"100","fixed":"100","fixed_pipe":"100","spec":"101","cmp":"lt"}, …]}
+  `filters_numpipe` {"cases": [{"m":"1005","k":3,"p":2}, …]} → {"res": [{"round":"101","fixed":"100","fixed_pipe":"100","spec":"101","cmp":"lt"}, …]}
+      (round = the digit-string rounding of filterRound; fixed = %.pf hybrid model; fixed_pipe = full binary64 pipeline; spec = exact)
 -/
 
 open Proto
@@ -130,7 +131,7 @@ def filtersOps (op : String) (j : Json) : Option (Except String Json) :=
       let k ← getNat c "k"
       let p ← getNat c "p"
       let spec := if k ≤ p then m * 10 ^ (p - k) else Num.specRoundDiv m (10 ^ (k - p))
-      pure (ok [("round", toString (Num.goRoundN m k p)), ("round_pipe", toString (Num.pipeRound m k p)),
+      pure (ok [("round", toString (Num.goRoundN m k p)),
                 ("fixed", toString (Num.goFixedN m k p)), ("fixed_pipe", toString (Num.pipeFixed m k p)),
                 ("spec", toString spec), ("cmp", ordName (Num.flCmp m k))])
     pure (ok [("res", Json.arr res.toArray)])
